@@ -50,7 +50,7 @@ Step ==
        [] ev.ev = "nflog.log" -> NflogLog(ev.gk, ev.integ, ToSet(ev.firing), ToSet(ev.resolved))
        [] ev.ev = "flush.ok" -> FlushOk(ev.ag)
        [] ev.ev = "flush.done" -> FlushDone(ev.ag)
-       [] ev.ev = "reloading" -> Reloading(ev.data.integs)
+       [] ev.ev = "reloading" -> Reloading(ev.data.integs, ev.data.routes)
        [] ev.ev = "end" -> Cancelling
        [] ev.ev = "api.alerts" -> ApiAlerts(ev.data.alerts)
        [] ev.ev = "api.groups" -> ApiGroups(ev.data.groups)
